@@ -14,10 +14,11 @@ and a core of graphs is pushed through the full product store x compression {Non
 exactly equal to the default-configuration result of the same store (configuration independence).
 
 A HISTORY part drives one live object through every sequence of {save to a new zip/dir target, mode='o' save
-onto the previous target, in-place mutations of tensors (requires_grad_ flip, writes through .data and through
-.numpy(), add_), ndarray writes, attribute replacement by another kind, append / setitem / delete, changes inside a
-nested object} up to depth 3 (quick) / 4 (thorough): after the last save load(target) must equal the object as
-it is then, and earlier targets must still load to what the object was when they were written. A WIDTH family
+onto the previous target, delete the previous target and save with mode='w' onto its path, load(previous target),
+in-place mutations of tensors (requires_grad_ flip, writes through .data and through .numpy(), add_), ndarray
+writes, attribute replacement by another kind, append / pop / setitem / delete, changes inside a nested object}
+up to depth 3 (quick) / 4 (thorough): every load (after every save in the quick tier) must equal the object as
+it was at the save that wrote the target, and earlier targets must still load to what the object was then. A WIDTH family
 stores containers of 9..101 elements (slot names of 1, 2 and 3 digits).
 
 Excluded from the input alphabet exactly as the quantifier says: reserved metadata names, names
@@ -44,8 +45,8 @@ CLAIM = (
     "stores give the same object, and saving the loaded object again is a fixed point; a core of graphs additionally runs "
     "through the full product of store x compression level x path type x write mode, containers of 9..101 elements are stored "
     "for every container and element kind, and one live object is driven through every history of saves (new target, mode 'o') "
-    "and in-place mutations up to depth 3 (quick) / 4 (thorough) with load(target) compared to a deep-copy model after every "
-    "save and earlier targets re-read. Exploration is the right level: the "
+    "(also delete-then-write onto the same path), loads of the previous target and in-place mutations up to depth 3 (quick) / 4 "
+    "(thorough) with load(target) executed and compared to a deep-copy model after every save and earlier targets re-read. Exploration is the right level: the "
     "property is a statement about a lattice of value kinds and configurations, each point decided exactly by one execution."
 )
 NOTE = (
@@ -232,12 +233,17 @@ def eval_config(item, seed=0, scratch="/tmp"):
 
 # ----------------------------------------------------------------------------- histories on one live object
 # Every other part of this check builds a fresh graph and saves it once. Here ONE live object goes through a
-# history of events (saves to new targets in either store, mode='o' saves onto the previous target, in-place
-# mutations between them); all histories up to a depth are enumerated, replayed from a fresh build, and judged
-# after the last save:  load(last target) ~ the object as it is now (a deep copy taken at the save is the
-# model), and every earlier target that was not overwritten still loads to what the object was THEN.
-# Only histories that end in a save are executed: the checks after an earlier save of a history are exactly
-# the checks of the prefix that ends there, and every prefix is enumerated as a history of its own.
+# history of events: saves to new targets in either store, mode='o' saves onto the previous target, deleting the
+# previous target and saving with mode='w' onto the same path, in-place mutations between them (among them the
+# "removing" ones: delete an array attribute, shorten a list, delete a dict key, replace a nested object by a
+# scalar), and load(previous target). All histories up to a depth are enumerated and replayed from a fresh build.
+# Loads have side effects of their own (a loader may keep what it unpacked), so they are events, not only verdicts:
+#   mode "every_save": after EVERY save, load(target) is executed and judged on the spot against a deep copy of
+#                      the object taken at that save, so a load lies between any two saves of the history;
+#   mode "as_written": loads only where the history has a `load` event (judged on the spot against the snapshot
+#                      of the save that wrote that target) and once per existing target after the last event.
+# In both modes every earlier target that was not overwritten must, at the end, still load to what the object was
+# when it was written. Histories end in a save: shorter prefixes are histories of their own.
 def _hist_graphs():
     L, C, D, O = S.L, S.C, S.D, S.O
     T, G, A = L("t_f64"), L("t_f32_grad_2x3"), L("arr:f64:(2, 3)")  # both tensors hold ordinary values next to nan/-0/inf
@@ -549,7 +555,7 @@ def run(ctx):
         "leaf contents are seeded (VERIF_SEED); the set of graphs and configurations does not depend on the seed",
     )
     items, bounds = S.grammar(ctx.tier)
-    ncore = 4 if ctx.quick else 20
+    ncore = 3 if ctx.quick else 20
     core = S.config_core(ncore)
 
     probe = S.O(
